@@ -1,23 +1,44 @@
 from lib.pipeline import Prop
 PROP = Prop(
-    "C11", harness="sim", quick=["--mode", "txn"], thorough=["--mode", "txn"], harness_kind="test", tags="verif synctests", driver="C11",
-    models=[("pkg/kgo/txn.go", ["Client.EndTransaction", "Client.BeginTransaction", "Client.doWithConcurrentTransactions"]),
-            ("pkg/kfake/26_end_txn.go", []), ("pkg/kfake/txns.go", ["pids.create", "pidinfo.endTx"])],
-    rule="scenario = one transactional producer running 2-8 transactions (1-6 records over 1-3 partitions, commit 65% / abort) against a real kfake (1-2 brokers) with faults on every "
+    "C11", harness="sim", quick=["--mode", "txn,tofs"], thorough=["--mode", "txn,tofs"], harness_kind="test", tags="verif synctests", driver="C11",
+    models=[("pkg/kgo/txn.go", ["Client.EndTransaction", "Client.BeginTransaction", "Client.doWithConcurrentTransactions",
+                                "GroupTransactSession.End", "Client.commitTransactionOffsets", "Client.addOffsetsToTxn", "groupConsumer.commitTxn"]),
+            ("pkg/kfake/26_end_txn.go", []), ("pkg/kfake/txns.go", ["pids.create", "pidinfo.endTx", "pids.doTxnOffsetCommit", "pids.doAddOffsets"])],
+    rule="two scenario kinds. txn = one transactional producer running 2-8 transactions (1-6 records over 1-3 partitions, commit 65% / abort) against a real kfake (1-2 brokers) with faults on every "
          "request of the transactional sequence (InitProducerID, AddPartitionsToTxn, Produce, AddOffsetsToTxn, TxnOffsetCommit, EndTxn): connection killed before the broker saw the request, "
          "response lost after handling, injected COORDINATOR_LOAD_IN_PROGRESS / NOT_COORDINATOR / CONCURRENT_TRANSACTIONS on EndTxn, optional short transaction timeout with sleeps past it; "
-         "client restart on a fatal producer state; history = begin/produce/promise/End call and result, fault decisions, and the read_committed and read_uncommitted views at the end; "
-         "non-trivial = at least one fault or one transaction that did not commit",
-    trusted_base=["history monitor Model.Txn", "harness/sim (synctest bubble, fault layer)", "the fresh read_committed consumer of this tree used for the final view (C04-C06 check it separately)",
+         "client restart on a fatal producer state; history = begin/produce/promise/End call and result, fault decisions, and the read_committed and read_uncommitted views at the end. "
+         "tofs = one or two GroupTransactSession member slots (a slot keeps its transactional id over restarts) consuming a pre-filled input topic of 1-3 partitions in 4-11 transactions: poll 1-5 "
+         "records, produce 0-3 output records (40% of the transactions only consume), End(TryCommit) or End(TryAbort) (13%); kfake with transaction.version 2 (TxnOffsetCommit v5 adds the group "
+         "implicitly) or downgraded to 0 (explicit AddOffsetsToTxn, v4 requests); no faults in 40% of the scenarios, otherwise the same fault layer on Produce, InitProducerID, AddPartitionsToTxn, "
+         "AddOffsetsToTxn, TxnOffsetCommit, EndTxn (killed before handling, response dropped after handling, injected retriable codes / CONCURRENT_TRANSACTIONS on AddOffsetsToTxn, TxnOffsetCommit, "
+         "EndTxn), optional 400 ms transaction timeout with sleeps past it, member closed inside a transaction without End (4%), abort retry by the application after an End error and restart of the "
+         "member; history = per transaction the offsets it sets out to commit per partition (last polled + 1), produced ids and promises, End call and result, and right after every End the group's "
+         "committed offset per input partition (OffsetFetch by a separate plain client, RequireStable false) and the coordinator's state of the transactional id (DescribeTransactions), fault "
+         "decisions attributed to the transaction, the final group offsets and the read_committed view of the output topic; "
+         "non-trivial = at least one fault, one transaction that did not commit, or (tofs) a committed transaction that produced nothing",
+    trusted_base=["history monitors Model.Txn and Model.TxnOffsets", "harness/sim (synctest bubble, fault layer)",
+                  "the fresh read_committed consumer of this tree used for the final view (C04-C06 check it separately)",
+                  "kfake's OffsetFetch / DescribeTransactions answers used as ground truth for the group's committed offsets and the coordinator state",
                   "Lean compiler/runtime for the driver"],
-    assumptions=["records are flushed before EndTransaction (as its documentation requires)"],
+    assumptions=["records are flushed before EndTransaction (as its documentation requires)",
+                 "tofs, two members: an offset set out to be committed by a transaction whose End(TryCommit) is still in progress on the other member when the observation is logged counts as explained"],
+    partial="observed_offsets_come_from_committed_transactions is proved at full strength for single-member scenarios; for several members the proved statement "
+            "(observed_offsets_come_from_committed_transactions_partial) also admits a transaction whose End(TryCommit) call is in progress at the time of the observation and does not re-examine it when "
+            "that End later reports an abort or an error. The End context is never cancelled by the scenarios (documented as unsafe by the client).",
     run_timeout={"quick": 900, "thorough": 3400},
 )
 MANIFEST = {
-    "text": "Verified monitor: Lean theorems over ALL accepted transaction histories: a reported commit makes every acknowledged record of the transaction visible; records of a transaction whose End "
-            "reported abort, or that this client never ended, are never visible (also after later commits); records of a commit that reported an error are not visible unless the broker handled an "
-            "EndTxn of that call and its response was lost (known finding: the documented 'outcome unconfirmed' error); nothing is visible twice or unproduced. Tie: history correspondence with a real "
-            "transactional kgo producer x kfake under single and multiple fault placements on the transactional request sequence.",
-    "note": "Trusted: Lean kernel; monitor vocabulary; harness. Theorems quantify over all histories; the correspondence samples fault placements and schedules in synctest bubbles.",
-    "technique": "Lean 4 proof over a history monitor with history correspondence against kgo x kfake in synctest bubbles",
+    "text": "Verified monitors: Lean theorems over ALL accepted transaction histories. Records (transactional producer, and GroupTransactSession): a reported commit makes every acknowledged record of "
+            "the transaction visible; records of a transaction whose End reported abort, or that this client never ended, are never visible (also after later commits); records of a commit that "
+            "reported an error are not visible unless the broker handled an EndTxn of that call and its response was lost (known finding: the documented 'outcome unconfirmed' error); nothing is "
+            "visible twice or unproduced. Offsets (GroupTransactSession.End): when End reports a commit, the group's committed offsets read right after it are at least (single member: exactly) what "
+            "the transaction set out to commit on every partition it polled from, and the coordinator has no open transaction for the id; every committed offset ever observed (after any End and at the "
+            "end) was set out to be committed by a transaction whose End reported a commit, so the offsets of an aborted, failed or never-ended transaction are never committed, also not through a "
+            "later transaction's commit (same known finding for an unconfirmed commit that took effect); after a reported abort or error the offsets are unchanged (single member). Tie: history "
+            "correspondence with a real transactional kgo producer x kfake and real GroupTransactSession members x kfake (transaction.version 2 and 0; consume-only transactions; restarts; abort "
+            "retries) under single and multiple fault placements on the transactional request sequence.",
+    "note": "Trusted: Lean kernel; monitor vocabulary; harness; kfake's OffsetFetch/DescribeTransactions as ground truth. Theorems quantify over all histories; the correspondence samples fault "
+            "placements and schedules in synctest bubbles. Two-member offsets statement is partial (see partial).",
+    "technique": "Lean 4 proof over history monitors with history correspondence against kgo x kfake in synctest bubbles",
 }
